@@ -82,15 +82,15 @@ func (g *Graph) AddStatement(s *Statement) {
 		panic(fmt.Errorf("rdf: object is not a valid term: %s", s.Object.Value))
 	}
 
+	g.addTerm(&s.Subject)
+	g.addTerm(&s.Predicate)
+	g.addTerm(&s.Object)
 	statements, ok := g.pred[s.Predicate.UID]
 	if !ok {
 		statements = make(map[*Statement]bool)
 		g.pred[s.Predicate.UID] = statements
 	}
 	statements[s] = true
-	g.addTerm(&s.Subject)
-	g.addTerm(&s.Predicate)
-	g.addTerm(&s.Object)
 	g.setLine(s)
 }
 
